@@ -21,6 +21,12 @@
 (* (--duration) or all are done; the walk writes P when it starts and the  *)
 (* script removes it when everything is done.                              *)
 (*                                                                         *)
+(* The seed configuration may hold further tasks on the same cache (they     *)
+(* share its tile manager); a task with a refresh time long ago that comes  *)
+(* after the re-seeding task finds every unit seeded and does nothing: the  *)
+(* state below is that of the re-seeding task, each task is walked with     *)
+(* its own refresh time.                                                    *)
+(*                                                                          *)
 (* Variant = "asfound": P is written by the walk only, so a call that ends *)
 (* in (B) leaves "F new, no P" - which the next call reads as "the last    *)
 (* pass was completed".  Variant = "repaired": P is written in (A) when a  *)
